@@ -105,6 +105,22 @@ class Sandbox:
             with open(os.path.join(self.cwd, name), "wb") as f:  # name may carry surrogate escapes (non-UTF-8 bytes)
                 f.write(data)
         self.before = self.listing(self.cwd)
+        self.before_hash = self.hashes(self.cwd)
+
+    @staticmethod
+    def hashes(d):
+        import hashlib
+        out = {}
+        for base, _dirs, files in os.walk(d):
+            for n in files:
+                p = os.path.join(base, n)
+                with open(p, "rb") as f:
+                    out[os.path.relpath(p, d)] = hashlib.sha256(f.read()).hexdigest()
+        return out
+
+    def new_files(self):
+        """{relative path: sha256} of the files in cwd that are new or have other bytes than at the start"""
+        return {k: v for k, v in self.hashes(self.cwd).items() if self.before_hash.get(k) != v}
 
     @staticmethod
     def listing(d):
@@ -149,6 +165,6 @@ def run_single(args, stdin_bytes=None, files=None, decide=None, repo=None, mode=
                 return {"code": -9, "stdout": b"", "stderr": b"horizon exceeded", "trace": pr.trace, "tmp_left": [], "cwd_changed": False}
         code, out, err = pr.finish()
         left, changed = sb.leftovers()
-        return {"code": code, "stdout": out, "stderr": err, "trace": pr.trace, "tmp_left": left, "cwd_changed": changed}
+        return {"code": code, "stdout": out, "stderr": err, "trace": pr.trace, "tmp_left": left, "cwd_changed": changed, "cwd_new": sb.new_files()}
     finally:
         sb.close()
